@@ -329,4 +329,7 @@ def finalize(agg):
     for need in ('post_sweep/L0', 'post_iteration/L0', 'post_step/L0', 'post_sweep/L1'):
         if need not in cbs:
             out.append(f'defect oracle never ran at {need}')
+    for k, why in (('forced_continuations', 'no forced continuation was injected'), ('scripts_running_past_the_budget', 'no script ran past the iteration budget')):
+        if c.get(k, 0) == 0:
+            out.append(why)
     return out
